@@ -1,14 +1,14 @@
 CONSTANTS
-  Alphabet <- L1
-  Core <- L1Core
-  Mid <- L1Mid
+  Alphabet <- LM
+  Core <- LMCore
+  Mid <- LMCore
   MaxAll = 2
   MaxMid = 2
-  MaxCore = 3
-  Wrappers <- NoWrap
-  MaxWrap = 0
-  MaxDeep = 0
-  DeepWraps = 0
+  MaxCore = 2
+  Wrappers <- WrapM
+  MaxWrap = 1
+  MaxDeep = 2
+  DeepWraps = 1
 SPECIFICATION Spec
 INVARIANT Bounded
 INVARIANT Shape
